@@ -332,7 +332,8 @@ pub(crate) fn run(opts: &Opts, report: &mut Report) {
     // 4), with quorum 1 (max_outbound 2) and quorum 2 (max_outbound 3)
     for wi in if thorough { vec![0usize, 1, 2] } else { vec![0usize] } {
         for hashes_batch in if thorough { vec![3u64, 4, 6, 2000] } else { vec![4u64, 2000] } {
-            for max_outbound in if thorough { vec![2u32, 3] } else { vec![3u32] } {
+            // (quorum 2 of 3 peers; with a quorum of 1 a single peer's hashes are trusted by configuration)
+            for max_outbound in [3u32] {
                 items.push((wi, 1, 5, hashes_batch, max_outbound, "BlockFilterHashes"));
             }
         }
